@@ -3,7 +3,7 @@
 
 usage: tools/reseed.py <seed> [id-prefix ...]
 
-For each /verif/seeded/<id>/: apply patch.diff to /repo, run the quick tier of every check listed
+For each /verif/seeded/<id>/: apply patch.diff to /repo, run the quick tier (or the tier named by `detect_tier` in meta.json) of every check listed
 in meta.json (the property's own check and any extra one recorded there) at VERIF_SEED=<seed>, undo
 the patch, and record the outcome in meta.json:
   * seed 0 rewrites `checks_run_with_change_applied` and `detected` (the state the table shows);
@@ -45,7 +45,8 @@ def main():
         try:
             for c in checks:
                 env = dict(ENV, VERIF_SEED=str(seed))
-                rc, out = sh("./check %s --tier quick" % c, cwd="/verif", env=env)
+                # a change recorded with "detect_tier": "thorough" is only expected to be caught there
+                rc, out = sh("./check %s --tier %s" % (c, meta.get("detect_tier", "quick")), cwd="/verif", env=env)
                 viol = re.findall(r"^VIOLATION property=\S+ replay=(\S+)", out, re.M)
                 results[c] = dict(exit=rc, violation_lines=len(viol), kinds=[os.path.basename(v).split("-case")[0] for v in viol])
         finally:
